@@ -8,6 +8,7 @@ import kflow, kanirun
 from common import REPO, log, scratch
 from mir import parse as P
 from mir.exec import Executor, State, Agg, EnumV, Opaque, Outcome, SeqV, RefV, ClosureV, UNIT, Panic, BYTES
+from mir import textlayer as T
 from mir.parse import Unsupported
 from mir.relation import dump_mir
 from mir.summaries import COMMON, compile_table, ok1
@@ -26,6 +27,14 @@ def concrete_line(kind, utf8):
     return b"garbage, not a sentence" if utf8 else b"\xff\xfegarbage"
 
 
+def is_utf8(b):
+    try:
+        b.decode("utf-8")
+        return True
+    except UnicodeDecodeError:
+        return False
+
+
 def build_binary():
     td = os.path.join(kanirun.CACHE, "bin-aisparser")
     rc, out, dt, to = kanirun._run(["cargo", "build", "--offline", "--bin", "aisparser", "--target-dir", td], 900, cwd=REPO)
@@ -42,6 +51,16 @@ def run_binary(exe, lines):
 
 
 def run(res, nlines=2):
+    """two encodings of the input stream: 'abstract' - each line an opaque byte string with any parser outcome and any
+    UTF-8-ness; 'short' - each line 0..3 fully symbolic bytes (such a line can only be rejected by the parser), so that code
+    that looks at the line itself (trimming, indexing, loops) is executed on real contents"""
+    ok = True
+    for mode in ("abstract", "short"):
+        ok = _run(res, nlines, mode) and ok
+    return ok
+
+
+def _run(res, nlines, mode):
     prop = res.prop
     t0 = time.time()
     try:
@@ -50,15 +69,26 @@ def run(res, nlines=2):
         enums, structs = P.scan_source_types(os.path.join(REPO, "src"))
         kinds = [z3.Int("kind_%d" % i) for i in range(nlines)]        # 0 Complete 1 Incomplete 2 Err
         utf8 = [z3.Bool("utf8_%d" % i) for i in range(nlines)]
-        lines = [SeqV(z3.Const("line_%d" % i, BYTES)) for i in range(nlines)]
+        # each line: up to LINE_N symbolic bytes and a symbolic length (slice operations, indexing and loops over the line
+        # are executed; loops are unrolled LINE_N + 3 times with an unwinding assertion)
+        LINE_N = 3
+        tl = [T.Line(LINE_N, "_b%d" % i) for i in range(nlines)]
+        if mode == "short":
+            lines = [T.SliceV(tl[i], T.pos(0), tl[i].n) for i in range(nlines)]
+        else:
+            lines = [SeqV(z3.Const("line_%d" % i, BYTES)) for i in range(nlines)]
         cur = {"i": 0}
 
         def line_index(ex, st, v):
+            """which input line a slice belongs to (the whole line or a part of it, e.g. after trimming)"""
             v = ex.deref_val(st, v)
-            for i, l in enumerate(lines):
-                if isinstance(v, SeqV) and v.e.eq(l.e):
+            for i, l in enumerate(tl):
+                if isinstance(v, T.SliceV) and v.line is l:
                     return i
-            raise Unsupported("from_utf8 / parse called on something that is not the current line: %r" % (v,))
+            for i, l in enumerate(lines):
+                if isinstance(v, SeqV) and isinstance(l, SeqV) and v.e.eq(l.e):
+                    return i
+            raise Unsupported("from_utf8 / parse called on something that is not (part of) the current line: %s" % type(v).__name__)
 
         def s_parse(ex, st, callee, args, argv, f):
             i = line_index(ex, st, argv[1])
@@ -154,24 +184,30 @@ def run(res, nlines=2):
             (r"as Iterator>::for_each::<", s_for_each),
             (r"^<Vec<u8> as Deref>::deref$", lambda ex, st, c, a, v, f: ok1(st, ex.deref_val(st, v[0]))),
             (r"^<(?:std::borrow::)?Cow<'_, str> as Deref>::deref$", lambda ex, st, c, a, v, f: ok1(st, Opaque("str"))),
-        ] + COMMON)
+        ] + T.SLICE_OPS + COMMON)
         ex = Executor(funcs, enums, structs, table)
+        ex.unroll = LINE_N + 3
         fmain = funcs.get("main")
         if fmain is None:
             raise Unsupported("main not found in the binary's MIR")
-        outs = ex.run(fmain, [], State())
+        st0 = State()
+        for l in tl:
+            st0.pc.append(l.wf)
+        outs = ex.run(fmain, [], st0)
         outs += states_panics
     except Unsupported as e:
-        res.inconclusive.append("engine M could not encode the aisparser binary: %s" % e)
+        res.inconclusive.append("engine M could not encode the aisparser binary (%s lines): %s" % (mode, str(e)[:300]))
         return False
     enc_s = time.time() - t0
-    dom = [z3.And(k >= 0, k <= 2) for k in kinds]
+    # lines of <= LINE_N bytes cannot be valid sentences: the parser rejects them (kind 2) - unless they are not the whole story:
+    # kinds stay unconstrained for longer lines, which the symbolic content does not model
+    dom = ([z3.And(k >= 0, k <= 2) for k in kinds] if mode == "abstract" else [k == 2 for k in kinds]) + [l.wf for l in tl]
     # query 1: a panic edge is reachable
     panics = [o for o in outs if o.panic is not None]
     normal = [o for o in outs if o.panic is None]
     res.states += ex.blocks_visited
     res.transitions += len(outs)
-    res.extra["binary_encoding"] = {"functions_encoded_from_mir": sorted(ex.calls_inlined | {"main"}), "callees_summarised": sorted(ex.calls_summarised),
+    res.extra.setdefault("binary_encoding", {})[mode] = {"functions_encoded_from_mir": sorted(ex.calls_inlined | {"main"}), "callees_summarised": sorted(ex.calls_summarised),
                                     "paths": len(outs), "panic_paths": len(panics), "lines": nlines, "encode_s": round(enc_s, 2), "mir_lines": sum(1 for _ in open(mir_path))}
     exe = build_binary()
     ok = True
@@ -183,7 +219,14 @@ def run(res, nlines=2):
             k = model.eval(kinds[i]).as_long() if model is not None else 2
             u = z3.is_true(model.eval(utf8[i])) if model is not None else False
             ks = "CIE"[k]
-            ls.append(concrete_line(ks, u))
+            if mode == "short":
+                n = model.eval(tl[i].n).as_long()
+                content = bytes(model.eval(tl[i].bytes[j]).as_long() for j in range(min(n, LINE_N)))
+                if b"\n" in content:
+                    content = content.replace(b"\n", b" ")
+                ls.append(content)
+            else:
+                ls.append(concrete_line(ks, u))
             want_out += ks == "C"
             want_err += ks == "E"
         # a well-behaved line before and after: nothing may stop the tool or affect other lines
@@ -208,7 +251,7 @@ def run(res, nlines=2):
         s, r, dt = solve(dom + [z3.Or(*[z3.And(*o.st.pc) if o.st.pc else z3.BoolVal(True) for o in panics])], timeout_s=60)
     else:
         r, dt, s = "unsat", 0.0, None
-    it = {"engine": "M", "query": "tool-panic-unreachable", "result": r, "seconds": round(dt, 3), "panic_paths": len(panics)}
+    it = {"engine": "M", "query": "tool-panic-unreachable[%s lines]" % mode, "result": r, "seconds": round(dt, 3), "panic_paths": len(panics)}
     log("  [M] %-52s %-8s %.2fs" % (it["query"], r, dt))
     res.items.append(it)
     res.queries += 1
@@ -237,7 +280,7 @@ def run(res, nlines=2):
     # every combination of outcomes must be covered by a non-panicking path or a panic path (no silently lost paths)
     cover = z3.Or(*[z3.And(*o.st.pc) if o.st.pc else z3.BoolVal(True) for o in outs]) if outs else z3.BoolVal(False)
     s, r, dt = solve(dom + [z3.Or(z3.Or(*bad) if bad else z3.BoolVal(False), z3.Not(cover))], timeout_s=60)
-    it = {"engine": "M", "query": "tool-records-match-outcomes", "result": r, "seconds": round(dt, 3), "paths": len(normal)}
+    it = {"engine": "M", "query": "tool-records-match-outcomes[%s lines]" % mode, "result": r, "seconds": round(dt, 3), "paths": len(normal)}
     log("  [M] %-52s %-8s %.2fs" % (it["query"], r, dt))
     res.items.append(it)
     res.queries += 1
